@@ -110,7 +110,8 @@ Check(r, idx) ==
         \* itself, no expiry, no loader run that answered not-found.
         posts == {e \in ev : e.t = "post"}
         removedBefore(e) == \E a \in aevs : a.seq < e.seq /\ a.err # "Replacement"
-        undisturbed == wcalls = {} /\ r.sc.expiry = 0 /\ r.sc.inloader = <<>> /\ ~\E x \in exits : x.err \in {"nf", "nfw"}
+        \* (a computation that cancelled itself and a SetIfAbsent that found the key present are not writes)
+        undisturbed == (~\E w \in wcalls : IsWrite(w.op) /\ ~\E x \in wrets : x.g = w.g /\ x.op = "setifabsent-noop") /\ r.sc.expiry = 0 /\ r.sc.inloader = <<>> /\ ~\E x \in exits : x.err \in {"nf", "nfw"}
         \* a Get that returned a value and does not find the key afterwards
         notCached == {e \in posts : e.op = "Get" /\ e.err = "miss" /\ ~removedBefore(e)}
         \* a Refresh whose successful result has been delivered while the cache still serves the replaced value (or nothing)
